@@ -10,7 +10,12 @@ from cv import algos, graphs  # noqa: E402
 from cv.core import VERIF, Check  # noqa: E402
 from cayleypy import find_path  # noqa: E402
 
-THEOREMS = []
+THEOREMS = [
+    "Cv.C12.precomputeBfs_isBall",
+    "Cv.C12.findPath_valid",
+    "Cv.C12.findPath_shortest",
+    "Cv.C12.findPath_core",
+]
 
 
 def inverted_gdef(gd: graphs.GDef):
